@@ -1,6 +1,7 @@
 import OxiVerif.Base.Driver
 import OxiVerif.Spec.C24Png
 import OxiVerif.Model.C24
+import OxiVerif.Model.C07Inflate
 /-!
 Driver for C24.  Request / answer formats: see `harness/src/bin/c24.rs`.
 
@@ -190,12 +191,19 @@ def handle0 (req impl : String) : String × String :=
         if !refOk then ("harness-png-is-not-the-reference-encoding", "na")
         else
           let raw := d.filteredStream
+          -- zlib: stored streams by the model's own stored-block inflater; streams compressed by
+          -- flate2 by the RFC 1950/1951 inflate of `Model/C07Inflate.lean` (fixed and dynamic
+          -- Huffman blocks), whose result must be the reference scanline stream
           let inflate : Inflate := fun zs =>
             match stored with
             | some _ => storedInflate zs
-            | none => .ok raw     -- flate2 inflate ∘ deflate = id (external)
+            | none => match OxiVerif.Inflate.zlibInflate zs with
+              | some out => .ok out
+              | none => .unknown
           let m := showOutcome (Image.fromPngData inflate png)
-          (m, judge w h d.expectedPixels impl)
+          if stored.isNone ∧ OxiVerif.Inflate.zlibInflate (idatPayload png |>.getD []) ≠ some raw then
+            ("harness-idat-does-not-inflate-to-the-reference-scanlines", "na")
+          else (m, judge w h d.expectedPixels impl)
       else
         -- mutated file: own stored-block inflater; where that cannot tell (compressed block
         -- types) the externally supplied result of flate2 on the IDAT payload
